@@ -45,7 +45,7 @@ RULE = ("Hypothesis-generated scenarios (connect script, console delays / silenc
         "instant drawn from the scenario's own event instants (+/- 1/16 s, both same-instant orders) x optional re-init; "
         "non-trivial: shutdown lands while a connection attempt, a retry delay, a handshake or pending messages are in "
         "flight, or in the same instant as a scenario event; distinct by (scenario, instant)"
-        " Also: TCP close latency, a console that stops reading, write faults in the instant of a send, resets requested from outside, a third same-instant order with 0..7 loop turns, the instants of the last handshake answers, re-opening the closed socket, close() while a write is stalled by back-pressure.")
+        " Also: TCP close latency, a console that stops reading, write faults in the instant of a send, resets requested from outside, a third same-instant order with 0..7 loop turns, the instants of the last handshake answers, re-opening the closed socket, close() while a write is stalled by back-pressure, pile-ups of resets in the instant a connection is established.")
 ASSUMPTIONS = ["timers and tasks created by the harness (console answer delays, scenario events) are cancelled by the harness at the "
                "shutdown instant and are not counted as leaks",
                "after shutdown the simulated network accepts every connection attempt immediately"]
@@ -384,6 +384,15 @@ def _sock_scenario(draw, gen: int):
             losses = [x for x in losses if x[0] < stall]
             faults = [x for x in faults if x[0] < stall]
             resets = [x for x in resets if x < stall]
+    # pile-up (one scenario in four): in the very instant in which a connection is established the console drops it, a
+    # message is submitted and two or three resets are requested from outside - overlapping _disconnect() calls, some
+    # entered before and some after the connection existed, racing the re-connection
+    if draw(st.integers(0, 3)) == 0:
+        t0 = script[-1][1] if len(script) == 1 else draw(st.sampled_from([x[0] for x in losses] + [2.0 * (len(script) - 1)]))
+        sends.append([t0, draw(sockops.kind_and_params(gen)), draw(st.sampled_from(["conn", "idem"]))])
+        if not any(x[0] == t0 for x in losses):
+            losses = (losses + [[t0, 0]])[-2:]
+        resets = sorted((resets + [t0] * draw(st.integers(2, 3)))[-4:])
     return {"mode": "sock", "gen": gen, "script": script, "sends": sorted(sends, key=lambda s: s[0]), "losses": sorted(losses),
             "faults": sorted(faults, key=lambda f: f[0]), "resets": resets, "stall": stall,
             "loss_kinds": [draw(st.sampled_from(["reset", "eof", "garbage"])) for _ in losses], "close_latency": draw(st.sampled_from([0.0, 0.0, 0.125, 1.0]))}
